@@ -37,5 +37,6 @@ class VariationalPINNCondition(SingleModuleCondition):
                                                         **x_coordinates,
                                                         **test_space_parameters, 
                                                         **test_fn.coordinates,
+                                                        **self.parameter.coordinates,
                                                         **data}))
         return self.reduce_fn(unreduced_loss)
